@@ -185,8 +185,15 @@ class Tr:
                 tgts = node.targets if isinstance(node, ast.Assign) else [node.target]
                 for t in tgts:
                     for el in (t.elts if isinstance(t, ast.Tuple) else [t]):
+                        if isinstance(el, ast.Subscript):
+                            el = el.value       # self.d[k] = v
                         if isinstance(el, ast.Attribute) and isinstance(el.value, ast.Name) and el.value.id == "self":
                             note(el.attr)
+            if isinstance(node, ast.Delete):
+                for t in node.targets:
+                    el = t.value if isinstance(t, ast.Subscript) else t
+                    if isinstance(el, ast.Attribute) and isinstance(el.value, ast.Name) and el.value.id == "self":
+                        note(el.attr)
             if isinstance(node, ast.Call) and isinstance(node.func, ast.Attribute):
                 if node.func.attr in ("append", "pop", "clear"):
                     b = node.func.value
@@ -428,6 +435,10 @@ class Tr:
                 if t == ("List", "Int"):
                     x = self.fresh()
                     return b + [f"let {x} ← Py.{fn}List {c}"], x, "Int"
+                if t == ("List", ("Opt", "Int")):
+                    # comparing `None` with a number raises TypeError in Python
+                    x = self.fresh()
+                    return b + [f"let {x} ← Py.{fn}OptList {c}"], x, "Int"
                 raise Untranslatable(f"{fn} of {t}")
             if len(node.args) == 2:
                 b1, c1, t1 = self.E(node.args[0], env)
